@@ -340,80 +340,70 @@ func TestC24VerifyBlock(t *testing.T) {
 	rapid.Check(t, func(t *rapid.T) { c24case(t) })
 }
 
-func c24case(t *rapid.T) {
-	env := c24genEnv(t)
-	labels := map[string]bool{}
-	var faults []string
-	fault := func(s string) { faults = append(faults, s) }
+// c24def is the epoch definition a block has to be judged against: the
+// authority set, randomness and configuration that the epoch state answers for
+// the block's header (fork dependent in TestC24ManagerAcrossForks).
+type c24def struct {
+	n      int
+	keyIDs []int
+	auths  []types.AuthorityRaw
+	rnd    Randomness
+	cfg    *types.ConfigData
+}
 
-	// ---- position of the block and of its parent
-	E := uint64(rapid.IntRange(0, 3).Draw(t, "epoch"))
-	parentKind := rapid.SampledFrom([]string{"genesis", "same", "same", "prev", "prev", "skipped", "later"}).Draw(t, "parent")
-	switch {
-	case parentKind == "prev" && E < 1, parentKind == "skipped" && E < 2, parentKind == "later" && E > 2:
-		parentKind = "same"
-	}
-	genesis := &types.Header{Number: 0, Digest: types.NewDigest(), StateRoot: common.Hash{0xee}}
-	bs := &c24BlockState{genesis: genesis.Hash(), headers: map[common.Hash]*types.Header{genesis.Hash(): genesis}}
-	parent := genesis
-	parentEpoch := E
-	if parentKind != "genesis" {
-		switch parentKind {
-		case "prev":
-			parentEpoch = E - 1
-		case "skipped":
-			parentEpoch = E - 2
-		case "later":
-			parentEpoch = E + 1
-		}
-		pslot := env.firstSlot + parentEpoch*env.epochLen // first slot of its epoch: always before the block's slot in "same"
-		pd, err := types.NewBabeSecondaryPlainPreDigest(0, pslot).ToPreRuntimeDigest()
-		if err != nil {
-			t.Fatalf("%v", err)
-		}
-		parent = &types.Header{ParentHash: genesis.Hash(), Number: 5, Digest: types.NewDigest(), StateRoot: common.Hash{0xdd}}
-		_ = parent.Digest.Add(*pd)
-		bs.headers[parent.Hash()] = parent
-	}
-	// epoch whose data applies (Substrate: skipped epochs reuse the data announced for parentEpoch+1)
-	dataEpoch := E
-	if parentKind == "skipped" {
-		dataEpoch = parentEpoch + 1
-	}
-	ed := env.epochs[dataEpoch]
-	rnd := ed.data.Randomness
-	cfg := ed.cfg
-	thr, err := CalculateThreshold(cfg.C1, cfg.C2, env.n)
+// c24drawn is one generated block with its ground truth.
+type c24drawn struct {
+	b                                              *c24block
+	slot                                           uint64
+	honest                                         bool
+	faults                                         []string
+	labels                                         map[string]bool
+	want, idxOK, sealValid, structOK, isAuthor, ok bool
+	why                                            string
+	excludedKnown                                  bool
+}
+
+// c24drawBlock draws a claim for epoch E (first slot epochStart, at least 10
+// slots long) under definition d - from the package's own claimSlot or
+// assembled, then component faults - and evaluates the ground truth against d.
+// parentOK tells whether the parent's epoch is not later than E.
+func c24drawBlock(t *rapid.T, d *c24def, E, epochStart, epochLen uint64, parentOK bool) *c24drawn {
+	r := &c24drawn{labels: map[string]bool{}}
+	labels := r.labels
+	fault := func(s string) { r.faults = append(r.faults, s) }
+	rnd, cfg := d.rnd, d.cfg
+	thr, err := CalculateThreshold(cfg.C1, cfg.C2, d.n)
 	if err != nil {
 		t.Fatalf("threshold: %v", err)
 	}
 	thrBig := c24u128(thr)
 
 	// ---- base claim
-	slot := env.firstSlot + E*env.epochLen + rapid.Uint64Range(1, env.epochLen-9).Draw(t, "slotoff")
+	slot := epochStart + rapid.Uint64Range(1, epochLen-9).Draw(t, "slotoff")
 	b := &c24block{sealMode: "ok"}
+	r.b = b
 	honest := false
-	me := rapid.IntRange(0, env.n-1).Draw(t, "me")
+	me := rapid.IntRange(0, d.n-1).Draw(t, "me")
 	if rapid.IntRange(0, 2).Draw(t, "honestPath") > 0 {
 		// the node's own lottery: authority `me` tries up to 8 consecutive slots
-		epd := &epochData{randomness: rnd, authorityIndex: uint32(me), authorities: env.auths, threshold: thr,
+		epd := &epochData{randomness: rnd, authorityIndex: uint32(me), authorities: d.auths, threshold: thr,
 			allowedSlots: types.AllowedSlots(cfg.SecondarySlots)}
 		for s := slot; s < slot+8; s++ {
-			d, err := claimSlot(E, s, epd, c24key(env.keyIDs[me]))
+			dg, err := claimSlot(E, s, epd, c24key(d.keyIDs[me]))
 			if errors.Is(err, errNotOurTurnToPropose) || errors.Is(err, errOverPrimarySlotThreshold) {
 				continue
 			}
 			if err != nil {
 				t.Fatalf("claimSlot(epoch %d, slot %d): %v", E, s, err)
 			}
-			dec, err := types.DecodeBabePreDigest(d.Data)
+			dec, err := types.DecodeBabePreDigest(dg.Data)
 			if err != nil {
 				t.Fatalf("claimSlot returned an undecodable digest: %v", err)
 			}
 			slot = s
-			b.verbatim = d
+			b.verbatim = dg
 			b.slot, b.vrfSlot, b.vrfEpoch, b.vrfRand = s, s, E, rnd
-			b.vrfKey, b.sealKey = env.keyIDs[me], env.keyIDs[me]
+			b.vrfKey, b.sealKey = d.keyIDs[me], d.keyIDs[me]
 			switch x := dec.(type) {
 			case types.BabePrimaryPreDigest:
 				b.kind, b.idx, b.out, b.proof = c24Primary, x.AuthorityIndex, x.VRFOutput, x.VRFProof
@@ -438,11 +428,12 @@ func c24case(t *rapid.T) {
 		b.slot = slot
 		b.idx = uint32(me)
 		if b.kind != c24Primary && rapid.IntRange(0, 3).Draw(t, "rightAuthor") > 0 {
-			b.idx = c24author(rnd, slot, env.n)
+			b.idx = c24author(rnd, slot, d.n)
 		}
-		b.vrfKey, b.sealKey = env.keyIDs[b.idx], env.keyIDs[b.idx]
+		b.vrfKey, b.sealKey = d.keyIDs[b.idx], d.keyIDs[b.idx]
 		b.vrfSlot, b.vrfEpoch, b.vrfRand = slot, E, rnd
 	}
+	r.honest, r.slot = honest, slot
 
 	// ---- component faults (each with a small probability; most blocks carry zero or one)
 	pick := func(name string, oneIn int) bool { return rapid.IntRange(0, oneIn-1).Draw(t, name) == 0 }
@@ -464,18 +455,18 @@ func c24case(t *rapid.T) {
 		var ni uint32
 		switch rapid.IntRange(0, 3).Draw(t, "idxkind") {
 		case 0, 1: // other index in range
-			ni = uint32(rapid.IntRange(0, env.n-1).Draw(t, "newidx"))
+			ni = uint32(rapid.IntRange(0, d.n-1).Draw(t, "newidx"))
 		case 2:
-			ni = uint32(env.n) + uint32(rapid.IntRange(0, 3).Draw(t, "over"))
+			ni = uint32(d.n) + uint32(rapid.IntRange(0, 3).Draw(t, "over"))
 		default:
 			ni = rapid.SampledFrom([]uint32{1 << 16, 1<<31 - 1, 1 << 31, ^uint32(0)}).Draw(t, "hugeidx")
 		}
 		if ni != b.idx {
-			follow := int(ni) < env.n && rapid.Bool().Draw(t, "keysFollowIdx") // the new index' own key makes VRF and seal
+			follow := int(ni) < d.n && rapid.Bool().Draw(t, "keysFollowIdx") // the new index' own key makes VRF and seal
 			fault(fmt.Sprintf("idx:%d->%d(follow=%v)", b.idx, ni, follow))
 			b.idx, b.verbatim = ni, nil
 			if follow {
-				b.vrfKey, b.sealKey = env.keyIDs[ni], env.keyIDs[ni]
+				b.vrfKey, b.sealKey = d.keyIDs[ni], d.keyIDs[ni]
 				resign = true
 			}
 		}
@@ -553,18 +544,17 @@ func c24case(t *rapid.T) {
 	}
 
 	// ---- ground truth
-	idxOK := uint64(b.idx) < uint64(env.n)
-	vrfValid := idxOK && c24pub(b.vrfKey) == env.auths[min(int(b.idx), env.n-1)].Key &&
+	idxOK := uint64(b.idx) < uint64(d.n)
+	vrfValid := idxOK && c24pub(b.vrfKey) == d.auths[min(int(b.idx), d.n-1)].Key &&
 		b.vrfRand == rnd && b.vrfSlot == b.slot && b.vrfEpoch == E && b.vrfTamper == ""
-	sealValid := idxOK && b.sealMode == "ok" && c24pub(b.sealKey) == env.auths[min(int(b.idx), env.n-1)].Key
-	isAuthor := idxOK && b.idx == c24author(rnd, b.slot, env.n)
+	sealValid := idxOK && b.sealMode == "ok" && c24pub(b.sealKey) == d.auths[min(int(b.idx), d.n-1)].Key
+	isAuthor := idxOK && b.idx == c24author(rnd, b.slot, d.n)
 	var claimOK bool
-	var why string
 	switch b.kind {
 	case c24Primary:
 		below := false
 		if vrfValid {
-			pk, err := sr25519.NewPublicKey(env.auths[b.idx].Key[:])
+			pk, err := sr25519.NewPublicKey(d.auths[b.idx].Key[:])
 			if err != nil {
 				t.Fatalf("%v", err)
 			}
@@ -580,17 +570,19 @@ func c24case(t *rapid.T) {
 			}
 		}
 		claimOK = vrfValid && below
-		why = fmt.Sprintf("primary: vrfValid=%v below=%v", vrfValid, below)
+		r.why = fmt.Sprintf("primary: vrfValid=%v below=%v", vrfValid, below)
 	case c24Plain:
 		claimOK = cfg.SecondarySlots == 1 && isAuthor
-		why = fmt.Sprintf("plain: SecondarySlots=%d isAuthor=%v", cfg.SecondarySlots, isAuthor)
+		r.why = fmt.Sprintf("plain: SecondarySlots=%d isAuthor=%v", cfg.SecondarySlots, isAuthor)
 	default:
 		claimOK = cfg.SecondarySlots == 2 && isAuthor && vrfValid
-		why = fmt.Sprintf("secvrf: SecondarySlots=%d isAuthor=%v vrfValid=%v", cfg.SecondarySlots, isAuthor, vrfValid)
+		r.why = fmt.Sprintf("secvrf: SecondarySlots=%d isAuthor=%v vrfValid=%v", cfg.SecondarySlots, isAuthor, vrfValid)
 	}
 	structOK := !b.noPreDigest && b.sealMode != "missing"
-	parentOK := parentKind != "later"
-	want := structOK && parentOK && idxOK && claimOK && sealValid
+	r.idxOK, r.sealValid, r.structOK, r.isAuthor = idxOK, sealValid, structOK, isAuthor
+	r.want = structOK && parentOK && idxOK && claimOK && sealValid
+	r.why += fmt.Sprintf("; idxInRange=%v sealValid=%v structure=%v parentEpochOK=%v; c=%d/%d SecondarySlots=%d",
+		idxOK, sealValid, structOK, parentOK, cfg.C1, cfg.C2, cfg.SecondarySlots)
 
 	// known finding: a secondary claim of the kind the configuration does not allow is accepted
 	wrongSecKind := (b.kind == c24Plain && cfg.SecondarySlots == 2) || (b.kind == c24VRF && cfg.SecondarySlots == 1)
@@ -598,33 +590,66 @@ func c24case(t *rapid.T) {
 		labels["secondary-kind-not-allowed-by-config"] = true
 		if kit.KnownOpen(c24FindingKinds) {
 			// exactly this class: the verdict would only differ if everything else is valid
-			otherwise := structOK && parentOK && idxOK && isAuthor && sealValid && (b.kind == c24Plain || vrfValid)
-			if otherwise {
-				// steered away: the case is counted as excluded and not judged
-				kit.Excluded(c24FindingKinds)
-				return
+			if structOK && parentOK && idxOK && isAuthor && sealValid && (b.kind == c24Plain || vrfValid) {
+				r.excludedKnown = true
 			}
 		}
 	}
+	labels[fmt.Sprintf("cfg-sec=%d", cfg.SecondarySlots)] = true
+	labels["kind:"+c24kindName[b.kind]] = true
+	if !idxOK {
+		labels["idx-out-of-range"] = true
+	}
+	if b.kind != c24Primary && idxOK && !isAuthor {
+		labels["secondary-by-non-author"] = true
+	}
+	return r
+}
 
-	// ---- run
-	hdr := b.header(parent, byte(slot)^byte(b.idx))
+// c24faultLabels adds the per-fault coverage labels once the verdict is known.
+func (r *c24drawn) faultLabels(got, parentOK bool) {
+	labels := r.labels
+	if got {
+		labels["accept:"+c24kindName[r.b.kind]] = true
+	} else {
+		labels["reject"] = true
+	}
+	switch len(r.faults) {
+	case 0:
+		labels["faults=0"] = true
+	case 1:
+		f := r.faults[0]
+		if i := strings.IndexAny(f, ":"); i > 0 && !strings.HasPrefix(f, "seal:") && !strings.HasPrefix(f, "vrf-tamper") {
+			f = f[:i]
+		}
+		labels["single-fault:"+f] = true
+		if !got && r.honest && parentOK {
+			// the fault alone turned a claim of the node's own lottery into a rejected block
+			labels["decisive-single-fault:"+f] = true
+		}
+	default:
+		labels["faults>=2"] = true
+	}
+}
+
+func (r *c24drawn) describe() string {
+	return fmt.Sprintf("%s idx=%d claimSlot=%v faults=[%s] middle=%d",
+		c24kindName[r.b.kind], r.b.idx, r.honest, strings.Join(r.faults, ","), r.b.middleItems)
+}
+
+// c24verify runs VerifyBlock and checks the verdict and that the header comes
+// back unchanged.
+func c24verify(t *rapid.T, vm *VerificationManager, hdr *types.Header, r *c24drawn, parentOK bool, descr string) bool {
 	before, err := scale.Marshal(*hdr)
 	if err != nil {
 		t.Fatalf("marshal: %v", err)
 	}
-	es := &c24EpochState{firstSlot: env.firstSlot, epochLen: env.epochLen, epochs: env.epochs}
-	vm := NewVerificationManager(bs, c24SlotState{}, es)
 	verr := vm.VerifyBlock(hdr)
 	got := verr == nil
-
-	descr := fmt.Sprintf("n=%d keys=%v %s | epoch=%d parent=%s slot=+%d | %s idx=%d claimSlot=%v faults=[%s] middle=%d",
-		env.n, env.keyIDs, strings.Join(env.cfgDescr, " "), E, parentKind, slot-env.firstSlot, c24kindName[b.kind], b.idx, honest, strings.Join(faults, ","), b.middleItems)
-	if got != want {
-		t.Fatalf("VerifyBlock accepted=%v (err: %v), authorised=%v\n  %s\n  %s; idxInRange=%v sealValid=%v structure=%v parentEpochOK=%v; config of epoch %d: c=%d/%d SecondarySlots=%d",
-			got, verr, want, descr, why, idxOK, sealValid, structOK, parentOK, dataEpoch, cfg.C1, cfg.C2, cfg.SecondarySlots)
+	if got != r.want {
+		t.Fatalf("VerifyBlock accepted=%v (err: %v), authorised=%v\n  %s\n  %s", got, verr, r.want, descr, r.why)
 	}
-	if honest && len(faults) == 0 && parentOK && !got {
+	if r.honest && len(r.faults) == 0 && parentOK && !got {
 		t.Fatalf("claim of the node's own lottery rejected: %v\n  %s", verr, descr)
 	}
 	// the verifier strips the seal while checking; the caller's header must come back unchanged
@@ -635,43 +660,287 @@ func c24case(t *rapid.T) {
 	if !bytes.Equal(before, after) {
 		t.Fatalf("VerifyBlock changed the header (accepted=%v): before %x after %x\n  %s", got, before, after, descr)
 	}
+	return got
+}
+
+func c24case(t *rapid.T) {
+	env := c24genEnv(t)
+
+	// ---- position of the block and of its parent
+	E := uint64(rapid.IntRange(0, 3).Draw(t, "epoch"))
+	parentKind := rapid.SampledFrom([]string{"genesis", "same", "same", "prev", "prev", "skipped", "later"}).Draw(t, "parent")
+	switch {
+	case parentKind == "prev" && E < 1, parentKind == "skipped" && E < 2, parentKind == "later" && E > 2:
+		parentKind = "same"
+	}
+	genesis := &types.Header{Number: 0, Digest: types.NewDigest(), StateRoot: common.Hash{0xee}}
+	bs := &c24BlockState{genesis: genesis.Hash(), headers: map[common.Hash]*types.Header{genesis.Hash(): genesis}}
+	parent := genesis
+	parentEpoch := E
+	if parentKind != "genesis" {
+		switch parentKind {
+		case "prev":
+			parentEpoch = E - 1
+		case "skipped":
+			parentEpoch = E - 2
+		case "later":
+			parentEpoch = E + 1
+		}
+		pslot := env.firstSlot + parentEpoch*env.epochLen // first slot of its epoch: always before the block's slot in "same"
+		pd, err := types.NewBabeSecondaryPlainPreDigest(0, pslot).ToPreRuntimeDigest()
+		if err != nil {
+			t.Fatalf("%v", err)
+		}
+		parent = &types.Header{ParentHash: genesis.Hash(), Number: 5, Digest: types.NewDigest(), StateRoot: common.Hash{0xdd}}
+		_ = parent.Digest.Add(*pd)
+		bs.headers[parent.Hash()] = parent
+	}
+	// epoch whose data applies (Substrate: skipped epochs reuse the data announced for parentEpoch+1)
+	dataEpoch := E
+	if parentKind == "skipped" {
+		dataEpoch = parentEpoch + 1
+	}
+	ed := env.epochs[dataEpoch]
+	def := &c24def{n: env.n, keyIDs: env.keyIDs, auths: env.auths, rnd: ed.data.Randomness, cfg: ed.cfg}
+	parentOK := parentKind != "later"
+	r := c24drawBlock(t, def, E, env.firstSlot+E*env.epochLen, env.epochLen, parentOK)
+	if r.excludedKnown {
+		// steered away: the case is counted as excluded and not judged
+		kit.Excluded(c24FindingKinds)
+		return
+	}
+
+	// ---- run
+	hdr := r.b.header(parent, byte(r.slot)^byte(r.b.idx))
+	es := &c24EpochState{firstSlot: env.firstSlot, epochLen: env.epochLen, epochs: env.epochs}
+	vm := NewVerificationManager(bs, c24SlotState{}, es)
+	descr := fmt.Sprintf("n=%d keys=%v %s | epoch=%d parent=%s slot=+%d | %s",
+		env.n, env.keyIDs, strings.Join(env.cfgDescr, " "), E, parentKind, r.slot-env.firstSlot, r.describe())
+	got := c24verify(t, vm, hdr, r, parentOK, descr)
 
 	// ---- coverage
-	if got {
-		labels["accept:"+c24kindName[b.kind]] = true
-	} else {
-		labels["reject"] = true
+	r.faultLabels(got, parentOK)
+	r.labels["parent:"+parentKind] = true
+	var ls []string
+	for l := range r.labels {
+		ls = append(ls, l)
 	}
-	labels[fmt.Sprintf("cfg-sec=%d", cfg.SecondarySlots)] = true
-	labels["kind:"+c24kindName[b.kind]] = true
-	labels["parent:"+parentKind] = true
-	switch len(faults) {
-	case 0:
-		labels["faults=0"] = true
-	case 1:
-		f := faults[0]
-		if i := strings.IndexAny(f, ":"); i > 0 && !strings.HasPrefix(f, "seal:") && !strings.HasPrefix(f, "vrf-tamper") {
-			f = f[:i]
+	kit.Case(descr, len(r.faults) > 0 || r.b.kind != c24Primary, ls...)
+}
+
+// ---------------------------------------------------------------------------
+// one long-lived VerificationManager, several forks that define the same epoch
+// numbers differently
+
+// c24ForkEpochState answers epoch data and configuration per HEADER: the fork
+// is resolved from the header's parent hash (every fork has its own parent
+// headers), as dot/state.EpochState resolves NextEpochData/NextConfigData of a
+// non-finalised epoch through the header's ancestry.
+type c24ForkEpochState struct {
+	EpochState
+	firstSlot, epochLen uint64
+	forkOfParent        map[common.Hash]int
+	forkOfBlock         map[common.Hash]int // headers handed to SetOnDisabled
+	defs                [][]c24epochCfg     // [fork][epoch]
+}
+
+func (s *c24ForkEpochState) fork(h *types.Header) (int, error) {
+	if h == nil {
+		return 0, errors.New("fake epoch state: nil header")
+	}
+	if f, ok := s.forkOfParent[h.ParentHash]; ok {
+		return f, nil
+	}
+	return 0, errors.New("fake epoch state: header on no known fork")
+}
+func (s *c24ForkEpochState) GetEpochForBlock(h *types.Header) (uint64, error) {
+	slot, err := h.SlotNumber()
+	if err != nil {
+		return 0, fmt.Errorf("%w: %v", errC24NoPreDigest, err)
+	}
+	if slot < s.firstSlot {
+		return 0, errC24NoEpoch
+	}
+	return (slot - s.firstSlot) / s.epochLen, nil
+}
+func (s *c24ForkEpochState) GetSlotDuration() (time.Duration, error) { return 6 * time.Second, nil }
+func (s *c24ForkEpochState) GetEpochDataRaw(e uint64, h *types.Header) (*types.EpochDataRaw, error) {
+	f, err := s.fork(h)
+	if err != nil {
+		return nil, err
+	}
+	if e >= uint64(len(s.defs[f])) {
+		return nil, errC24NoEpoch
+	}
+	return s.defs[f][e].data, nil
+}
+func (s *c24ForkEpochState) GetConfigData(e uint64, h *types.Header) (*types.ConfigData, error) {
+	f, err := s.fork(h)
+	if err != nil {
+		return nil, err
+	}
+	if e >= uint64(len(s.defs[f])) {
+		return nil, errC24NoEpoch
+	}
+	return s.defs[f][e].cfg, nil
+}
+
+// IsDescendantOf is only reached through SetOnDisabled (whose result is not judged).
+func (s *c24BlockState) IsDescendantOf(a, b common.Hash) (bool, error) { return a == b, nil }
+
+const c24ForksRule = "one VerificationManager per case; 2-3 forks define epochs 1..3 with their own authority set / randomness / c / SecondarySlots (epoch 0 = genesis definition, shared; a later epoch is shared with fork 0 with probability 1/4); " +
+	"a sequence of 2-5 blocks, each on a drawn fork and epoch (parent in the same or the previous epoch of that fork), claim and faults from the same generator as TestC24VerifyBlock, judged against THAT fork's definition; optional SetOnDisabled calls in between (result not judged); " +
+	"non-trivial = the sequence verifies blocks of one epoch number on at least two forks whose definitions of that epoch differ; distinct by the full description"
+
+func c24genDef(t *rapid.T, r0 Randomness) (*c24def, string) {
+	d := &c24def{}
+	d.n = rapid.SampledFrom([]int{1, 2, 2, 3, 3, 4}).Draw(t, "n")
+	d.keyIDs = rapid.Permutation([]int{0, 1, 2, 3, 4, 5, 6, 7, 8, 9}).Draw(t, "keyids")[:d.n]
+	for _, id := range d.keyIDs {
+		d.auths = append(d.auths, types.AuthorityRaw{Key: c24pub(id), Weight: 1})
+	}
+	d.rnd = r0
+	d.rnd[31] = rapid.Byte().Draw(t, "rnd31")
+	ci, sec := rapid.IntRange(0, len(c24cs)-1).Draw(t, "c"), byte(rapid.IntRange(0, 2).Draw(t, "sec"))
+	d.cfg = &types.ConfigData{C1: c24cs[ci].c1, C2: c24cs[ci].c2, SecondarySlots: sec}
+	return d, fmt.Sprintf("keys=%v,c=%s,sec=%d,r=..%x", d.keyIDs, c24cs[ci].name, sec, d.rnd[31])
+}
+
+func TestC24ManagerAcrossForks(t *testing.T) {
+	defer kit.Flush()
+	kit.Note("rule-forks", c24ForksRule)
+	rapid.Check(t, func(t *rapid.T) { c24forksCase(t) })
+}
+
+func c24forksCase(t *rapid.T) {
+	const nEpochs = 4
+	firstSlot := rapid.SampledFrom([]uint64{1, 1000}).Draw(t, "firstSlot")
+	epochLen := rapid.Uint64Range(10, 16).Draw(t, "epochLen")
+	nForks := rapid.IntRange(2, 3).Draw(t, "forks")
+	var r0 Randomness
+	copy(r0[:], rapid.SliceOfN(rapid.Byte(), 4, 4).Draw(t, "rand"))
+
+	// definitions: defs[f][e]; differs[f][e] = fork f's own definition of epoch e (not fork 0's)
+	defs := make([][]*c24def, nForks)
+	defDescr := make([][]string, nForks)
+	var sb strings.Builder
+	for f := 0; f < nForks; f++ {
+		defs[f] = make([]*c24def, nEpochs)
+		defDescr[f] = make([]string, nEpochs)
+		for e := 0; e < nEpochs; e++ {
+			if f > 0 && (e == 0 || rapid.IntRange(0, 3).Draw(t, "shared") == 0) {
+				defs[f][e], defDescr[f][e] = defs[0][e], defDescr[0][e]
+				continue
+			}
+			defs[f][e], defDescr[f][e] = c24genDef(t, r0)
 		}
-		labels["single-fault:"+f] = true
-		if !got && honest && parentOK {
-			// the fault alone turned a claim of the node's own lottery into a rejected block
-			labels["decisive-single-fault:"+f] = true
+		fmt.Fprintf(&sb, "F%d{%s} ", f, strings.Join(defDescr[f], " | "))
+	}
+
+	genesis := &types.Header{Number: 0, Digest: types.NewDigest(), StateRoot: common.Hash{0xee}}
+	bs := &c24BlockState{genesis: genesis.Hash(), headers: map[common.Hash]*types.Header{genesis.Hash(): genesis}}
+	es := &c24ForkEpochState{firstSlot: firstSlot, epochLen: epochLen, forkOfParent: map[common.Hash]int{}}
+	for f := 0; f < nForks; f++ {
+		var row []c24epochCfg
+		for e := 0; e < nEpochs; e++ {
+			d := defs[f][e]
+			row = append(row, c24epochCfg{data: &types.EpochDataRaw{Authorities: d.auths, Randomness: d.rnd}, cfg: d.cfg})
 		}
-	default:
-		labels["faults>=2"] = true
+		es.defs = append(es.defs, row)
 	}
-	if !idxOK {
-		labels["idx-out-of-range"] = true
+	// parents[f][e]: a header of fork f in epoch e (first slot of the epoch)
+	parents := make([][]*types.Header, nForks)
+	for f := 0; f < nForks; f++ {
+		parents[f] = make([]*types.Header, nEpochs)
+		for e := 0; e < nEpochs; e++ {
+			pd, err := types.NewBabeSecondaryPlainPreDigest(0, firstSlot+uint64(e)*epochLen).ToPreRuntimeDigest()
+			if err != nil {
+				t.Fatalf("%v", err)
+			}
+			p := &types.Header{ParentHash: genesis.Hash(), Number: uint(10*e + 5), Digest: types.NewDigest(), StateRoot: common.Hash{0xf0, byte(f), byte(e)}}
+			_ = p.Digest.Add(*pd)
+			parents[f][e] = p
+			bs.headers[p.Hash()] = p
+			es.forkOfParent[p.Hash()] = f
+		}
 	}
-	if b.kind != c24Primary && idxOK && !isAuthor {
-		labels["secondary-by-non-author"] = true
+
+	vm := NewVerificationManager(bs, c24SlotState{}, es) // ONE manager for the whole sequence
+	steps := rapid.IntRange(2, 5).Draw(t, "steps")
+	// sequences concentrate on one epoch number (3 of 4 steps) so that it is visited on several forks
+	mainEpoch := uint64(rapid.IntRange(1, nEpochs-1).Draw(t, "mainEpoch"))
+	labels := map[string]bool{}
+	seen := map[uint64]map[int]bool{} // epoch -> forks already verified on
+	crossed, revisit, lastFork := false, false, -1
+	visitedForks := map[int]bool{}
+	fmt.Fprintf(&sb, "::")
+	for i := 0; i < steps; i++ {
+		f := rapid.IntRange(0, nForks-1).Draw(t, "fork")
+		E := mainEpoch
+		if rapid.IntRange(0, 3).Draw(t, "otherEpoch") == 0 {
+			E = uint64(rapid.IntRange(0, nEpochs-1).Draw(t, "E"))
+		}
+		if rapid.IntRange(0, 5).Draw(t, "disable") == 0 {
+			// a digest of fork df disables an authority of epoch E there; VerifyBlock verdicts must not depend on it
+			df := rapid.IntRange(0, nForks-1).Draw(t, "disableFork")
+			h := &types.Header{ParentHash: parents[df][E].Hash(), Number: parents[df][E].Number + 1, Digest: types.NewDigest(), StateRoot: common.Hash{0xd1, byte(i)}}
+			pd, _ := types.NewBabeSecondaryPlainPreDigest(0, firstSlot+E*epochLen+1).ToPreRuntimeDigest()
+			_ = h.Digest.Add(*pd)
+			idx := uint32(rapid.IntRange(0, 4).Draw(t, "disableIdx"))
+			_ = vm.SetOnDisabled(idx, h)
+			labels["SetOnDisabled-between"] = true
+			fmt.Fprintf(&sb, " [disable F%d e%d idx%d]", df, E, idx)
+		}
+		pE := E
+		if E > 0 && rapid.Bool().Draw(t, "parentPrev") {
+			pE = E - 1 // first block of the epoch on this fork
+		}
+		d := defs[f][E]
+		r := c24drawBlock(t, d, E, firstSlot+E*epochLen, epochLen, true)
+		descr := fmt.Sprintf("%s step %d: F%d epoch=%d parentEpoch=%d slot=+%d %s", sb.String(), i, f, E, pE, r.slot-firstSlot, r.describe())
+		fmt.Fprintf(&sb, " (F%d e%d %s)", f, E, r.describe())
+		if r.excludedKnown {
+			kit.Excluded(c24FindingKinds)
+			continue
+		}
+		hdr := r.b.header(parents[f][pE], byte(r.slot)^byte(r.b.idx)^byte(i<<4))
+		got := c24verify(t, vm, hdr, r, true, descr)
+		r.faultLabels(got, true)
+		for l := range r.labels {
+			if strings.HasPrefix(l, "accept") || l == "reject" || l == "claimSlot-claim" || l == "faults=0" {
+				labels[l] = true
+			}
+		}
+		if seen[E] == nil {
+			seen[E] = map[int]bool{}
+		}
+		for of := range seen[E] {
+			if of != f && defs[of][E] != defs[f][E] {
+				crossed = true
+				if got {
+					labels["accepted-after-other-fork-defined-epoch"] = true
+				}
+			}
+		}
+		if seen[E][f] && lastFork != f && visitedForks[f] {
+			revisit = true
+		}
+		seen[E][f] = true
+		visitedForks[f] = true
+		lastFork = f
 	}
+	if crossed {
+		labels["same-epoch-on-forks-with-different-definitions"] = true
+	}
+	if revisit {
+		labels["fork-revisited-after-another"] = true
+	}
+	labels[fmt.Sprintf("forks=%d", nForks)] = true
 	var ls []string
 	for l := range labels {
 		ls = append(ls, l)
 	}
-	kit.Case(descr, len(faults) > 0 || b.kind != c24Primary, ls...)
+	kit.Case(sb.String(), crossed, ls...)
 }
 
 // TestC24KnownSecondaryKind is the witness of finding
